@@ -185,9 +185,10 @@ def collect_bulk(ctx, procs):
             a = np.load(os.path.join(bdir, name % (var, rep)))
             b = np.load(os.path.join(bdir, name % ("serial" if var == "omp" else "omp", rep)))
             d = float(np.abs(a - b).max() / max(1.0, np.abs(b).max())) if a.shape == b.shape else 1.0
-            e["bulk_facts"]["vs_other_build"] = d
-            if d > 1e-9 and var == "omp":      # the serial batch is the reference of this comparison
-                e["out"]["bulk"] = "bad"
+            if var == "omp":                   # the serial batch is the reference of this comparison
+                e["bulk_facts"]["vs_serial_build"] = d
+                if d > 1e-9:
+                    e["out"]["bulk"] = "bad"
             if e["out"]["bulk"] == "ok":
                 worst = max([worst] + list(e["bulk_facts"].values()))
             e["args"]["bulk_facts"] = e["bulk_facts"]
@@ -197,7 +198,7 @@ def collect_bulk(ctx, procs):
                              flagged=[dict(build="omp" if e["cfg"]["omp"] else "serial", path=e["cfg"]["path"], nac=e["cfg"]["nac"],
                                            repeat=e["args"]["repeat"], facts=e["bulk_facts"]) for e in events if e["out"]["bulk"] == "bad"][:12])
     if worst / 1e-9 > 1e-3:
-        raise tlcmod.MachineryError("c14: bulk agreement margin exhausted: %g" % worst)
+        ctx.extra.setdefault("margin_exhausted", []).append("bulk agreement %g" % worst)
     return events
 
 
@@ -535,6 +536,13 @@ def history_validate(ctx, procs, stale):
 
 
 def run(ctx):
+    run_inner(ctx)
+    # a near miss of a tolerance is a machinery failure only when nothing was found: a defect produces near misses too
+    if ctx.extra.get("margin_exhausted") and not ctx.violations:
+        raise tlcmod.MachineryError("c14: margin exhausted: %s" % ctx.extra["margin_exhausted"])
+
+
+def run_inner(ctx):
     ctx.rule = ("one case = one call of the real API for one configuration (path, output flags, band-connection, "
                 "NAC class, decimals, direction, q-list shape, mesh spec, build) on one catalogue crystal; the "
                 "configurations are all those reachable in AccessPaths.tla (AllCfgs); distinct = distinct "
@@ -591,7 +599,7 @@ def run(ctx):
     tol = dict(D=1e-9, L=1e-9, E=1e-9, GV=1e-6)
     ctx.extra["projection_error_over_tolerance"] = {k: worst.get(k, 0.0) / tol[k] for k in tol}
     if any(worst.get(k, 0.0) / tol[k] > 1e-3 for k in tol):
-        raise tlcmod.MachineryError("c14: projection margin exhausted: %s" % worst)
+        ctx.extra.setdefault("margin_exhausted", []).append("projection %s" % worst)
     for e in events:
         c = e["cfg"]
         ctx.count((e["entry"], json.dumps({k: c[k] for k in CFG_FIELDS if k != "qs"}, sort_keys=True), len(c["qs"])))
